@@ -97,7 +97,7 @@ def k_args(run, case):
     run.seen(case, core.digest(arrA["p"], arrB["p"], fname, case["rs"]), cls=["args:" + fname, "storage:" + mA],
              sample={"function": fname, "n": len(arrA["p"]), "storage": mA})
     rel = list(metrics.PoseRelation)[rng.integers(7)]
-    if fname in ("APE.process_data", "RPE.process_data") and rng.random() < .35:
+    if fname in ("APE.process_data", "RPE.process_data") and not case.get("nonfinite") and rng.random() < .35:
         # odometry that starts at the origin (first pose exactly the identity), a reference resting
         # at its first pose for a while; the values are converted to another length unit afterwards
         arrB["p"] = arrB["p"] - arrB["p"][0]
@@ -112,6 +112,20 @@ def k_args(run, case):
             arrA["p"][1], arrA["R"][1] = 0.0, np.eye(3)
             A = gen.make_evo(arrA, mA, flavour="array64")
         rel = [metrics.PoseRelation.translation_part, metrics.PoseRelation.full_transformation][rng.integers(2)]
+    elif fname in ("APE.process_data", "RPE.process_data") and (case.get("nonfinite") or rng.random() < .2) and len(arrB["p"]) > 3:
+        # rows without a position, as some systems log them while tracking is lost (NaN) or after
+        # an overflow (inf): in the estimate, the reference or both; whatever the metric makes of
+        # them, the trajectories handed in stay as they are
+        who = int(rng.integers(3))
+        for arr_, lost in ((arrB, who != 1), (arrA, who != 0)):
+            if lost:
+                ks = rng.integers(len(arr_["p"]), size=int(rng.integers(1, 4)))
+                arr_["p"] = np.array(arr_["p"], dtype=float)
+                arr_["p"][ks] = [np.nan, np.inf, -np.inf][rng.integers(3)] if rng.random() < .3 else np.nan
+        B = gen.make_evo(arrB, mB, flavour="array64")
+        A = gen.make_evo(arrA, mA, flavour="array64")
+        rel = [metrics.PoseRelation.translation_part, metrics.PoseRelation.point_distance][rng.integers(2)]
+        run.hit("metric evaluated on trajectories with non-finite position rows")
 
     def evaluate(m):
         m.process_data((A, B))
@@ -528,6 +542,8 @@ def main(run):
     reps = {"quick": 12, "thorough": 300}[run.tier]
     for i in run.mine(len(FUNCS) * reps):
         k_args(run, run.case("args", i, f=FUNCS[i % len(FUNCS)]))
+    for i in run.mine({"quick": 24, "thorough": 400}[run.tier]):
+        k_args(run, run.case("args", 10**6 + i, f=["APE.process_data", "RPE.process_data"][i % 2], nonfinite=True))
     combos = [(d, m, dr, st, mat) for d in DERIVE for m in MUTATE
               for dr in ("mutate derived, inspect source", "mutate source, inspect derived")
               for st in ("se3", "xyzq") for mat in (False, True)]
